@@ -1351,10 +1351,18 @@ class Interp:
         return None
 
     def run_gen(self, fn, fr):
+        # a generator body counts as a frame while it is being resumed; nested
+        # ``yield from`` chains therefore count like nested calls
+        self.depth += 1
+        if self.depth > self.MAX_DEPTH:
+            self.depth -= 1
+            raise BoundHit("call depth")
         try:
             yield from self.gexec_block(fn.node.body, fr)
         except ReturnSig:
             return
+        finally:
+            self.depth -= 1
 
     # ------------------------------------------------------------------ statements
     def exec_block(self, body, fr):
